@@ -230,6 +230,7 @@ pub fn main_e2(spec: Spec, make: impl Fn(&Args) -> Vec<Family>) -> ! {
 /// in-process parts (E1 explorations, sweeps).
 pub fn main_check(spec: Spec, make: impl Fn(&Args) -> Vec<Family>, make_parts: impl Fn(&Args) -> Vec<Box<dyn Part>>) -> ! {
     let args = parse_args();
+    let _ = crate::report::PROP.set(spec.prop.to_string());
     guard::install_hook();
     let t0 = Instant::now();
     if args.only.as_deref() == Some("\u{1}list") {
